@@ -135,6 +135,13 @@ def main():
             with contextlib.redirect_stdout(buf):
                 fd = femio.generate_brick(job['kind'], *job['n'])
                 lat = np.rint(fd.nodes.data * np.array(job['n'])).astype(np.int64)
+                cr = job.get('crease')
+                if cr:
+                    # gently creased brick: z scaled by a piecewise linear function of x
+                    # with its kink on the grid line i0; every element face stays planar
+                    lat = np.stack([lat[:, 0] * cr['Dx'], lat[:, 1] * cr['Dy'],
+                                    lat[:, 2] * (cr['D'] + cr['s'] * np.abs(lat[:, 0] - cr['i0']))],
+                                   axis=1)
                 xyz = (lat @ np.array(job['M'], np.int64).T + np.array(job['t'], np.int64))
                 xyz = xyz.astype(np.float64) * float(job['scale'])
                 ids = np.array(job['node_ids'], np.int64) if job.get('node_ids') else fd.nodes.ids
